@@ -16,7 +16,9 @@ import (
 )
 
 type sisEnv struct {
-	c *mon.Ctx
+	c    *mon.Ctx
+	lb   int // limb size handled by this task
+	half int // 0: degrees 2^1..2^7, 1: degrees 2^8, 2^9
 }
 
 type sisParam struct {
@@ -65,11 +67,20 @@ func sisGrid(si *sisInst, thorough bool) []sisParam {
 					continue
 				}
 				seen[m] = true
-				p := sisParam{seed: int64(5 + k + 10*ld), ld: ld, lb: lb, max: m}
-				out = append(out, p)
-				if ld == 9 && lb == 16 && si.bytes == 4 && cpu.SupportAVX512 {
-					p.portable = true
+				reps := 1
+				if thorough {
+					reps = 4 // more keys
+				}
+				for rep := 0; rep < reps; rep++ {
+					p := sisParam{seed: int64(5+k+10*ld) + int64(rep)*1_000_003*int64(1+rep), ld: ld, lb: lb, max: m}
+					if rep == 3 {
+						p.seed = -p.seed
+					}
 					out = append(out, p)
+					if ld == 9 && lb == 16 && si.bytes == 4 && cpu.SupportAVX512 {
+						p.portable = true
+						out = append(out, p)
+					}
 				}
 			}
 		}
@@ -100,11 +111,14 @@ func runSis[E any, P fields.Ptr[E]](env *sisEnv, si *sisInst, f *fields.Field[E,
 	P_ := si.pkg
 	q := f.Modulus
 	scale := new(big.Int).ModInverse(new(big.Int).Lsh(big.NewInt(1), uint(8*f.Bytes)), q) // sis.sage: coefficients are limb * 2^(-8*Bytes)
-	r := gen.New(c.Seed, "c14/sis/"+P_)
+	r := gen.New(c.Seed, fmt.Sprintf("c14/sis/%s/%d/%d", P_, env.lb, env.half))
 	ar, arRes := newArena(pageSize), newArena(pageSize)
 	qm1 := new(big.Int).Sub(q, big.NewInt(1))
 	for _, p := range sisGrid(si, c.Thorough()) {
 		p := p
+		if p.lb != env.lb || (p.ld >= 8) != (env.half == 1) {
+			continue
+		}
 		d := 1 << p.ld
 		limbBytes := p.lb / 8
 		lpe := f.Bytes / limbBytes
